@@ -8,6 +8,7 @@ import (
 	"io"
 	"io/ioutil"
 	"reflect"
+	"runtime"
 	"sort"
 	"strconv"
 	"strings"
@@ -22,7 +23,13 @@ import (
 // scope of the task running them (observed through Result.Scope, C04/C20).
 var UserCalls = metrics.NewCounter()
 
+// Yield makes every user function call runtime.Gosched (schedule perturbation, C19).
+var Yield bool
+
 func countCall(ctxv reflect.Value) {
+	if Yield {
+		runtime.Gosched()
+	}
 	defer func() { recover() }() // a context without scope (never the case inside a task) is not an error here
 	UserCalls.Incr(metrics.ContextScope(ctxv.Interface().(context.Context)), 1)
 }
